@@ -5,10 +5,11 @@ set -e
 patch="$1"; shift
 wt=$(mktemp -d /tmp/trymut.XXXXXX)
 git -C /repo worktree add -q --detach "$wt" HEAD
-git -C "$wt" apply "$patch"
+if ! git -C "$wt" apply "$patch"; then echo "patch does not apply"; git -C /repo worktree remove --force "$wt"; exit 3; fi
 for p in "$@"; do
   echo "=== $p"
   VERIF_REPO="$wt" /verif/check "$p" --tier "${VERIF_TIER:-quick}" 2>&1 | tail -${TAIL:-6} || true
 done
 git -C /repo worktree remove --force "$wt"
-rm -rf /verif/work/alt-*
+tag=$(python3 -c "import hashlib,sys;print(hashlib.sha1(sys.argv[1].encode()).hexdigest()[:8])" "$wt")
+rm -rf "/verif/work/alt-$tag"
